@@ -6,13 +6,26 @@
 package rtw
 
 import (
+	"math/rand"
 	"reflect"
 	"testing"
 	"unsafe"
 
+	abci "github.com/cometbft/cometbft/abci/types"
+	tmproto "github.com/cometbft/cometbft/proto/tendermint/types"
+	tmtypes "github.com/cometbft/cometbft/types"
+	"github.com/cosmos/cosmos-sdk/crypto/keys/secp256k1"
 	storetypes "github.com/cosmos/cosmos-sdk/store/types"
+	simtestutil "github.com/cosmos/cosmos-sdk/testutil/sims"
+	sdk "github.com/cosmos/cosmos-sdk/types"
+	authtypes "github.com/cosmos/cosmos-sdk/x/auth/types"
+	banktypes "github.com/cosmos/cosmos-sdk/x/bank/types"
+	"github.com/cosmos/ibc-go/v7/testing/mock"
 
 	"github.com/unification-com/mainchain/app"
+	undtypes "github.com/unification-com/mainchain/types"
+	beacontypes "github.com/unification-com/mainchain/x/beacon/types"
+	wrktypes "github.com/unification-com/mainchain/x/wrkchain/types"
 )
 
 var theApp *app.App
@@ -94,3 +107,131 @@ func StreamFeeCollector() string {
 
 // BeginBlockOrder: the order in which the module manager runs the modules' BeginBlock.
 func BeginBlockOrder() []string { return append([]string{}, realApp().ModuleManager.OrderBeginBlockers...) }
+
+// ---- native probes through the real ABCI CheckTx of the fully wired application ----
+//
+// The probes are the NATIVE confirmation of static ante-wiring facts. The real application is
+// started from genesis with two funded accounts (0: liquid nund; 1: NO liquid nund, only
+// Enterprise-locked eFUND), the WRKChain and BEACON modules are given different registration fees
+// (1000 / 2000 nund), the block is committed, and signed transactions go through app.CheckTx.
+// Not used by the engine (the harnesses derive the same answers from the SSA of
+// ante.NewAnteHandler and app.NewApp).
+
+const probeWrkFee, probeBeaconFee = 1000, 2000
+
+type probeEnv struct {
+	a     *app.App
+	privs []*secp256k1.PrivKey
+	cctx  sdk.Context
+}
+
+var theProbe *probeEnv
+
+func probe() *probeEnv {
+	if theProbe != nil {
+		return theProbe
+	}
+	t := &testing.T{}
+	config := sdk.GetConfig()
+	if config.GetBech32AccountAddrPrefix() != undtypes.Bech32PrefixAccAddr {
+		app.SetConfig()
+	}
+	privVal := mock.NewPV()
+	pubKey, err := privVal.GetPubKey()
+	if err != nil {
+		panic(err)
+	}
+	valSet := tmtypes.NewValidatorSet([]*tmtypes.Validator{tmtypes.NewValidator(pubKey, 1)})
+	pe := &probeEnv{privs: []*secp256k1.PrivKey{secp256k1.GenPrivKey(), secp256k1.GenPrivKey()}}
+	var accs []authtypes.GenesisAccount
+	var bals []banktypes.Balance
+	for i, priv := range pe.privs {
+		acc := authtypes.NewBaseAccount(priv.PubKey().Address().Bytes(), priv.PubKey(), 0, 0)
+		coins := sdk.NewCoins(sdk.NewCoin(app.TestDenomination, sdk.NewInt(100000000000000)))
+		if i == 0 {
+			coins = coins.Add(sdk.NewCoin(undtypes.DefaultDenomination, sdk.NewInt(100000000000000)))
+		}
+		accs = append(accs, acc)
+		bals = append(bals, banktypes.Balance{Address: acc.GetAddress().String(), Coins: coins})
+	}
+	a := app.SetupWithGenesisValSet(t, valSet, accs, bals...)
+	header := tmproto.Header{Height: a.LastBlockHeight() + 1}
+	dctx := a.BaseApp.NewContext(false, header)
+	wp := a.WrkchainKeeper.GetParams(dctx)
+	wp.FeeRegister, wp.Denom = probeWrkFee, undtypes.DefaultDenomination
+	if err := a.WrkchainKeeper.SetParams(dctx, wp); err != nil {
+		panic(err)
+	}
+	bp := a.BeaconKeeper.GetParams(dctx)
+	bp.FeeRegister, bp.Denom = probeBeaconFee, undtypes.DefaultDenomination
+	if err := a.BeaconKeeper.SetParams(dctx, bp); err != nil {
+		panic(err)
+	}
+	ep := a.EnterpriseKeeper.GetParams(dctx)
+	ep.Denom = undtypes.DefaultDenomination
+	if err := a.EnterpriseKeeper.SetParams(dctx, ep); err != nil {
+		panic(err)
+	}
+	if err := a.EnterpriseKeeper.MintCoinsAndLock(dctx, sdk.AccAddress(pe.privs[1].PubKey().Address()), sdk.NewInt64Coin(undtypes.DefaultDenomination, 10*probeBeaconFee)); err != nil {
+		panic(err)
+	}
+	a.EndBlock(abci.RequestEndBlock{Height: header.Height})
+	a.Commit()
+	pe.a = a
+	pe.cctx = a.BaseApp.NewContext(true, tmproto.Header{})
+	theProbe = pe
+	return pe
+}
+
+// checkTx: is a registration message of `kind` from account `who`, paying `fee` nund and signed
+// with account number offset `accNumOff` (0 = correctly signed), admitted by CheckTx?
+func (pe *probeEnv) checkTx(kind string, who int, fee int64, accNumOff uint64) bool {
+	priv := pe.privs[who]
+	addr := sdk.AccAddress(priv.PubKey().Address())
+	ac := pe.a.AccountKeeper.GetAccount(pe.cctx, addr)
+	var msg sdk.Msg
+	if kind == "beacon" {
+		msg = beacontypes.NewMsgRegisterBeacon("probe", "probe beacon", addr)
+	} else {
+		msg = wrktypes.NewMsgRegisterWrkChain("probe", "genesishash", "probe wrkchain", "geth", addr)
+	}
+	txCfg := app.MakeEncodingConfig().TxConfig
+	tx, err := simtestutil.GenSignedMockTx(rand.New(rand.NewSource(1)), txCfg, []sdk.Msg{msg}, sdk.NewCoins(sdk.NewInt64Coin(undtypes.DefaultDenomination, fee)), 500000, "",
+		[]uint64{ac.GetAccountNumber() + accNumOff}, []uint64{ac.GetSequence()}, priv)
+	if err != nil {
+		panic(err)
+	}
+	bz, err := txCfg.TxEncoder()(tx)
+	if err != nil {
+		panic(err)
+	}
+	return pe.a.CheckTx(abci.RequestCheckTx{Tx: bz, Type: abci.CheckTxType_New}).Code == abci.CodeTypeOK
+}
+
+// ProbeAnteFeeSource: which module's fee parameters is a registration message of `kind`
+// ("wrkchain" | "beacon") actually charged? "neither"/"both" if not exactly one.
+func ProbeAnteFeeSource(kind string) string {
+	pe := probe()
+	w, b := pe.checkTx(kind, 0, probeWrkFee, 0), pe.checkTx(kind, 0, probeBeaconFee, 0)
+	switch {
+	case w && b:
+		return "both"
+	case w:
+		return "wrkchain"
+	case b:
+		return "beacon"
+	}
+	return "neither"
+}
+
+// ProbeBadSignatureAdmitted: a correctly funded, exact-fee registration whose signature was made
+// over the wrong account number.
+func ProbeBadSignatureAdmitted() bool { return probe().checkTx("beacon", 0, probeBeaconFee, 7) }
+
+// ProbeLockedOnlyPayerAdmitted: an exact-fee registration from an account with no liquid nund
+// whose locked eFUND covers the fee (needs the unlock decorator to run before fee deduction).
+func ProbeLockedOnlyPayerAdmitted() bool { return probe().checkTx("beacon", 1, probeBeaconFee, 0) }
+
+// HasModule: is a module of that name registered with the module manager? Engine: answered from
+// the constructor calls of app.NewApp.
+func HasModule(name string) bool { _, ok := realApp().ModuleManager.Modules[name]; return ok }
